@@ -4,12 +4,14 @@
    kind 2: claims (exp iss iat nbf jti sub  inner)  -> 1 err | 0 cred
    kind 3: pres opts custom   -> [2] | 1 err | 0 pres expires issued aud custom'
    kind 4: pclaims (exp iss iat nbf jti aud  pinner) -> 1 err | 0 pres expires issued aud
+   kind 6: mask cred custom   -> [3] create_credential_jwt refuses the signature options | as kind 1 (mask bits as in C08 kind 7, bit 9 = b64(true))
+   kind 7: mask pres opts custom -> [3] | as kind 3
    cred  = ctx id? types sub_id? sub_props issuer issued expires? status? schema refresh tou evidence nontransf? props proof?
    inner = ctx id? types issuer? sub_id? sub_props issued? expires? status? schema refresh tou evidence nontransf? props proof?
    pres  = ctx id? types vcs holder refresh tou props proof?      opts = expires? issued? aud?
    pinner = ctx id? types vcs holder? refresh tou props proof? *)
 From Coq Require Import List ZArith Bool.
-From IdV Require Import Lib.Wire Core.Timestamp Cred.Claims.
+From IdV Require Import Lib.Wire Core.Timestamp Cred.Claims Jose.Header Jose.Policy.
 Import ListNotations.
 Open Scope Z_scope.
 
@@ -57,9 +59,18 @@ Definition w_cres (r : res cred cerr) : list Z := match r with ROk c => 0 :: w_c
 Definition w_pres_res (r : res pdecoded perr) : list Z :=
   match r with ROk d => 0 :: w_pres (d_pres d) ++ wo (d_expires d) ++ wo (d_issued d) ++ wo (d_aud d) | RErr e => [1; perr_code e] end.
 
-Definition c07_run (input : list Z) : list Z :=
+Definition opts_of_mask (mask : Z) : sigopts :=
+  let bit (k : Z) := Z.testbit mask k in
+  {| so_attach_jwk := bit 0; so_b64 := if bit 9 then Some true else if bit 1 then Some false else None; so_cty := bit 3; so_url := bit 4; so_nonce := bit 5;
+     so_custom := if bit 8 then Some [101] else None; so_detached := bit 7 |}.
+Fixpoint c07_run_f (fuel : nat) (input : list Z) : list Z :=
   match input with
   | k :: l =>
+    if (k =? 6) || (k =? 7) then
+      match fuel, l with
+      | S f, mask :: l' => if jwt_opts_ok (opts_of_mask mask) then c07_run_f f ((if k =? 6 then 1 else 3) :: l') else [3]
+      | _, _ => ERR_DECODE end
+    else
     if k =? 1 then
       match (c <- rd_cred ;; cu <- rd_custom ;; ret (c, cu)) l with
       | Some ((c, cu), _) => match cred_roundtrip c cu with None => [2] | Some (r, cu') => w_cres r ++ match r with ROk _ => put_pairs cu' | RErr _ => [] end end
@@ -74,3 +85,4 @@ Definition c07_run (input : list Z) : list Z :=
       match rd_pclaims l with Some (cl, _) => w_pres_res (from_pclaims cl) | None => ERR_DECODE end
     else ERR_DECODE
   | [] => ERR_DECODE end.
+Definition c07_run (input : list Z) : list Z := c07_run_f 1 input.
